@@ -1996,7 +1996,7 @@ theorem sim_end_local_start_central (ext : Rs.S.Ext) (g : Gen.ZipWriter)
 /-! ### `add_directory` -/
 
 open Rs in
-theorem S.pure_bind' {σ α β} (a : α) (f : α → Rs.S σ β) : ((pure a : Rs.S σ α) >>= f) = f a := by
+theorem S.pure_bind_s {σ α β} (a : α) (f : α → Rs.S σ β) : ((pure a : Rs.S σ α) >>= f) = f a := by
   show Rs.S.ofM (Rs.S.toM (pure a : Rs.S σ α) >>= _) = f a
   simp only [S.toM_pure, pure_bind]
 
@@ -2059,12 +2059,12 @@ theorem sim_add_directory (ext : Rs.S.Ext) (g : Gen.ZipWriter) (name : Bytes) (o
     · next h =>
       have := key { o with permissions := some (perm ||| 0o40000), compression_method := .Stored } name rfl (by omega)
       rw [ho] at this
-      simp only [S.pure_bind', h]
+      simp only [S.pure_bind_s, h]
       exact this
     · next h =>
       have := key { o with permissions := some (perm ||| 0o40000), compression_method := .Stored } name rfl (by omega)
       rw [ho] at this
-      simp only [S.pure_bind', h]
+      simp only [S.pure_bind_s, h]
       exact this
     · next h1 h2 =>
       have := key { o with permissions := some (perm ||| 0o40000), compression_method := .Stored } (name ++ [0x2f]) rfl
@@ -2073,7 +2073,7 @@ theorem sim_add_directory (ext : Rs.S.Ext) (g : Gen.ZipWriter) (name : Bytes) (o
       split
       · next h => exact absurd h (h1)
       · next h => exact absurd h (h2)
-      · simp only [S.pure_bind']
+      · simp only [S.pure_bind_s]
         exact this
   unfold Gen.ZipWriter.add_directory
   cases hp : o.permissions with
